@@ -297,3 +297,140 @@ Definition mbap_nf_no_panic fuel st b n fi Hwf := nf_no_panic pstate PTcp mbap_p
   (fun st b st' b' Hwf _ => mbap_none st b st' b' Hwf) (fun st b st' b' f Hwf _ => mbap_some st b st' b' f Hwf)
   (fun st b st' b' e Hwf _ => mbap_err' st b st' b' e Hwf) (fun st b st' b' Hwf _ => mbap_panic st b st' b' Hwf) fuel st b n fi Hwf I (all_true n).
 End Inst.
+
+(* ---------------------------------------------------------------- the Spec over s1 ++ s2 *)
+Lemma ref_tail_unfold F s : ref_tail (S F) s =
+  if Nat.ltb (length s) 7 then s
+  else match hdr (firstn 7 s) with
+       | inr _ => s
+       | inl (tx, u, n) => if Nat.ltb (length (skipn 7 s)) n then s else ref_tail F (skipn n (skipn 7 s))
+       end.
+Proof.
+  destruct s as [|t1 [|t0 [|p1 [|p0 [|l1 [|l0 [|u s]]]]]]]; try reflexivity.
+  cbn [ref_tail length firstn skipn hdr]. destruct (Nat.ltb_spec (S (S (S (S (S (S (S (length s))))))) ) 7); [lia|].
+  unfold be, mbap_max_length_field. destruct (negb _); [reflexivity|]. destruct (Nat.ltb 254 _); [reflexivity|].
+  destruct (N.to_nat (l1 * 256 + l0)) as [|n]; [reflexivity|]. cbn [Nat.eqb]. replace (S n - 1) with n by lia. reflexivity.
+Qed.
+
+Lemma ref_tail_len : forall F s, length (ref_tail F s) <= length s.
+Proof.
+  induction F as [|F IH]; intros s; [cbn; lia|]. rewrite ref_tail_unfold.
+  destruct (Nat.ltb _ 7); [lia|]. destruct (hdr _) as [[[tx u] n]|e]; [|lia].
+  destruct (Nat.ltb _ n); [lia|]. etransitivity; [apply IH|]. rewrite !skipn_length. lia.
+Qed.
+Lemma ref_tail_fuel : forall f1 f2 s, length s < f1 -> length s < f2 -> ref_tail f1 s = ref_tail f2 s.
+Proof.
+  induction f1 as [|f1 IH]; intros f2 s H1 H2; [lia|]. destruct f2 as [|f2]; [lia|]. rewrite !ref_tail_unfold.
+  destruct (Nat.ltb_spec (length s) 7); [reflexivity|]. destruct (hdr _) as [[[tx u] n]|e]; [|reflexivity].
+  destruct (Nat.ltb _ n); [reflexivity|]. apply IH; rewrite !skipn_length; lia.
+Qed.
+
+(* ref over s1 ++ s2, in terms of ref over s1 alone (as if the stream paused there) *)
+Lemma ref_app_fuel : forall F s1 s2 fi, length (s1 ++ s2) < F ->
+  ref F (s1 ++ s2) fi =
+  match ref F s1 FinPending with
+  | (fs1, EndPending) => (fs1 ++ fst (ref F (ref_tail F s1 ++ s2) fi), snd (ref F (ref_tail F s1 ++ s2) fi))
+  | x => x
+  end.
+Proof.
+  induction F as [|F IH]; intros s1 s2 fi HF; [lia|]. rewrite (ref_unfold F s1), ref_tail_unfold.
+  assert (Htriv : (let x := ref (S F) (s1 ++ s2) fi in x = ([] ++ fst x, snd x))) by (cbv zeta; now destruct (ref (S F) (s1 ++ s2) fi)).
+  cbv zeta in Htriv.
+  destruct (Nat.ltb_spec (length s1) 7) as [|H7]; [exact Htriv|].
+  destruct (hdr (firstn 7 s1)) as [[[tx u] n]|e] eqn:Eh.
+  - cbn [ref_from]. destruct (Nat.ltb_spec (length (skipn 7 s1)) n) as [|Hn]; [exact Htriv|].
+    rewrite app_length in HF. rewrite (ref_unfold F (s1 ++ s2)). rewrite app_length.
+    destruct (Nat.ltb_spec (length s1 + length s2) 7); [lia|]. rewrite firstn_app_le by lia. rewrite Eh. cbn [ref_from].
+    rewrite skipn_app_le by lia. rewrite app_length. destruct (Nat.ltb_spec (length (skipn 7 s1) + length s2) n); [lia|].
+    rewrite skipn_app_le, firstn_app_le by lia.
+    rewrite IH by (rewrite app_length, !skipn_length; lia).
+    rewrite (ref_fuel (S F) F (ref_tail F (skipn n (skipn 7 s1)) ++ s2)).
+    + destruct (ref F (skipn n (skipn 7 s1)) FinPending) as [fs1 e1]. cbn [consf]. destruct e1; reflexivity.
+    + pose proof (ref_tail_len F (skipn n (skipn 7 s1))). rewrite app_length, !skipn_length in *. lia.
+    + pose proof (ref_tail_len F (skipn n (skipn 7 s1))). rewrite app_length, !skipn_length in *. lia.
+  - rewrite app_length in HF. rewrite (ref_unfold F (s1 ++ s2)), app_length.
+    destruct (Nat.ltb_spec (length s1 + length s2) 7); [lia|]. rewrite firstn_app_le by lia. now rewrite Eh.
+Qed.
+
+Lemma mbap_ref_app F s1 s2 fi : length (s1 ++ s2) < F ->
+  ref F (s1 ++ s2) fi =
+  match ref F s1 FinPending with
+  | (fs1, EndPending) => (fs1 ++ fst (ref F (mbap_tail s1 ++ s2) fi), snd (ref F (mbap_tail s1 ++ s2) fi))
+  | x => x
+  end.
+Proof.
+  intros HF. unfold mbap_tail. rewrite (ref_tail_fuel (S (length s1)) F s1) by (rewrite app_length in HF; lia). now apply ref_app_fuel.
+Qed.
+Lemma mbap_tail_len s : length (mbap_tail s) <= length s.
+Proof. apply ref_tail_len. Qed.
+
+(* a waiting parser asked again with the same pending bytes says "need more" again *)
+Lemma mbap_stable st b : wf b -> st_ok st -> buf_len b < need st -> mbap_parse st b = (st, b, Ok None).
+Proof.
+  intros Hwf Hst Hlt. rewrite mbap_parse_eq by assumption. destruct st as [|tx u n]; cbn [sparse need] in *.
+  - destruct (Nat.ltb_spec (buf_len b) 7); [reflexivity|lia].
+  - unfold sbody. destruct (Nat.ltb_spec (buf_len b) n); [reflexivity|lia].
+Qed.
+
+(* ---------------------------------------------------------------- compositionality / cancel-safety: instances *)
+Lemma mbap_H_mk : forall st b, parser_parse (PTcp st) b = let '(st', b', r) := mbap_parse st b in (PTcp st', b', r).
+Proof. reflexivity. Qed.
+Definition mbap_args_stable := fun st b Hwf (_ : True) => mbap_stable st b Hwf.
+
+Definition mbap_nf_fuel_indep f1 f2 st b n fi Hwf := nf_fuel_indep pstate PTcp mbap_parse Begin st_ok need cons_need ref ref_from
+  (fun _ => True) I (fun _ _ _ _ => I) (fun _ _ _ => I) (fun _ _ _ => I)
+  mbap_H_mk (fun _ => eq_refl) I (fun _ _ _ => eq_refl) ltac:(cbn; lia) mbap_need_cap stuck_eof
+  (fun st b st' b' Hwf _ => mbap_none st b st' b' Hwf) (fun st b st' b' f Hwf _ => mbap_some st b st' b' f Hwf)
+  (fun st b st' b' e Hwf _ => mbap_err' st b st' b' e Hwf) (fun st b st' b' Hwf _ => mbap_panic st b st' b' Hwf) mbap_args_stable f1 f2 st b n fi Hwf I (all_true n).
+Definition mbap_nf_app fuel st b n1 n2 fi F2 Hwf := nf_app pstate PTcp mbap_parse Begin st_ok need cons_need ref ref_from
+  (fun _ => True) I (fun _ _ _ _ => I) (fun _ _ _ => I) (fun _ _ _ => I)
+  mbap_H_mk (fun _ => eq_refl) I (fun _ _ _ => eq_refl) ltac:(cbn; lia) mbap_need_cap stuck_eof
+  (fun st b st' b' Hwf _ => mbap_none st b st' b' Hwf) (fun st b st' b' f Hwf _ => mbap_some st b st' b' f Hwf)
+  (fun st b st' b' e Hwf _ => mbap_err' st b st' b' e Hwf) (fun st b st' b' Hwf _ => mbap_panic st b st' b' Hwf) mbap_args_stable fuel st b n1 n2 fi F2 Hwf I (all_true n1) (all_true n2).
+Definition mbap_nf_cancel_safe st b n1 n2 fi r1 n1' F1 F2 F Hwf := nf_cancel_safe pstate PTcp mbap_parse Begin st_ok need cons_need ref ref_from
+  (fun _ => True) I (fun _ _ _ _ => I) (fun _ _ _ => I) (fun _ _ _ => I)
+  mbap_H_mk (fun _ => eq_refl) I (fun _ _ _ => eq_refl) ltac:(cbn; lia) mbap_need_cap stuck_eof
+  (fun st b st' b' Hwf _ => mbap_none st b st' b' Hwf) (fun st b st' b' f Hwf _ => mbap_some st b st' b' f Hwf)
+  (fun st b st' b' e Hwf _ => mbap_err' st b st' b' e Hwf) (fun st b st' b' Hwf _ => mbap_panic st b st' b' Hwf) mbap_args_stable st b n1 n2 fi r1 n1' F1 F2 F Hwf I (all_true n1) (all_true n2).
+Definition mbap_run_st_fuel_indep G1 G2 st b n fi Hwf := run_st_fuel_indep pstate PTcp mbap_parse Begin st_ok need cons_need ref ref_from
+  (fun _ => True) I (fun _ _ _ _ => I) (fun _ _ _ => I) (fun _ _ _ => I)
+  mbap_H_mk (fun _ => eq_refl) I (fun _ _ _ => eq_refl) ltac:(cbn; lia) mbap_need_cap stuck_eof
+  (fun st b st' b' Hwf _ => mbap_none st b st' b' Hwf) (fun st b st' b' f Hwf _ => mbap_some st b st' b' f Hwf)
+  (fun st b st' b' e Hwf _ => mbap_err' st b st' b' e Hwf) (fun st b st' b' Hwf _ => mbap_panic st b st' b' Hwf) mbap_args_stable G1 G2 st b n fi Hwf I (all_true n).
+Definition mbap_run_st_app G1 st b n1 n2 fi G2 G Hwf := run_st_app pstate PTcp mbap_parse Begin st_ok need cons_need ref ref_from
+  (fun _ => True) I (fun _ _ _ _ => I) (fun _ _ _ => I) (fun _ _ _ => I)
+  mbap_H_mk (fun _ => eq_refl) I (fun _ _ _ => eq_refl) ltac:(cbn; lia) mbap_need_cap stuck_eof
+  (fun st b st' b' Hwf _ => mbap_none st b st' b' Hwf) (fun st b st' b' f Hwf _ => mbap_some st b st' b' f Hwf)
+  (fun st b st' b' e Hwf _ => mbap_err' st b st' b' e Hwf) (fun st b st' b' Hwf _ => mbap_panic st b st' b' Hwf) mbap_args_stable G1 st b n1 n2 fi G2 G Hwf I (all_true n1) (all_true n2).
+Definition mbap_run_ref_from G st b n fi F Hwf := run_ref_from pstate PTcp mbap_parse Begin st_ok need cons_need ref ref_from
+  (fun _ => True) I (fun _ _ _ _ => I) (fun _ _ _ => I) (fun _ _ _ => I)
+  mbap_H_mk (fun _ => eq_refl) I (fun _ _ _ => eq_refl) ltac:(cbn; lia) mbap_need_cap stuck_eof
+  (fun st b st' b' Hwf _ => mbap_none st b st' b' Hwf) (fun st b st' b' f Hwf _ => mbap_some st b st' b' f Hwf)
+  (fun st b st' b' e Hwf _ => mbap_err' st b st' b' e Hwf) (fun st b st' b' Hwf _ => mbap_panic st b st' b' Hwf) mbap_args_stable G st b n fi F Hwf I (all_true n).
+Definition mbap_run_st_pending G st b n r1 l1 Hwf := run_st_pending pstate PTcp mbap_parse Begin st_ok need cons_need ref ref_from
+  (fun _ => True) I (fun _ _ _ _ => I) (fun _ _ _ => I) (fun _ _ _ => I)
+  mbap_H_mk (fun _ => eq_refl) I (fun _ _ _ => eq_refl) ltac:(cbn; lia) mbap_need_cap stuck_eof
+  (fun st b st' b' Hwf _ => mbap_none st b st' b' Hwf) (fun st b st' b' f Hwf _ => mbap_some st b st' b' f Hwf)
+  (fun st b st' b' e Hwf _ => mbap_err' st b st' b' e Hwf) (fun st b st' b' Hwf _ => mbap_panic st b st' b' Hwf) mbap_args_stable G st b n r1 l1 Hwf I (all_true n).
+Definition mbap_waiting := waiting pstate PTcp st_ok need (fun _ => True).
+Definition mbap_represents := represents pstate PTcp st_ok ref ref_from (fun _ => True).
+Definition mbap_represents_fresh := represents_fresh pstate PTcp mbap_parse Begin st_ok need cons_need ref ref_from
+  (fun _ => True) I (fun _ _ _ _ => I) (fun _ _ _ => I) (fun _ _ _ => I)
+  mbap_H_mk (fun _ => eq_refl) I (fun _ _ _ => eq_refl) ltac:(cbn; lia) mbap_need_cap stuck_eof
+  (fun st b st' b' Hwf _ => mbap_none st b st' b' Hwf) (fun st b st' b' f Hwf _ => mbap_some st b st' b' f Hwf)
+  (fun st b st' b' e Hwf _ => mbap_err' st b st' b' e Hwf) (fun st b st' b' Hwf _ => mbap_panic st b st' b' Hwf) mbap_args_stable mbap_tail ref_fuel mbap_ref_app mbap_tail_len.
+Definition mbap_run_represents r t n fi G F Hrep := run_represents pstate PTcp mbap_parse Begin st_ok need cons_need ref ref_from
+  (fun _ => True) I (fun _ _ _ _ => I) (fun _ _ _ => I) (fun _ _ _ => I)
+  mbap_H_mk (fun _ => eq_refl) I (fun _ _ _ => eq_refl) ltac:(cbn; lia) mbap_need_cap stuck_eof
+  (fun st b st' b' Hwf _ => mbap_none st b st' b' Hwf) (fun st b st' b' f Hwf _ => mbap_some st b st' b' f Hwf)
+  (fun st b st' b' e Hwf _ => mbap_err' st b st' b' e Hwf) (fun st b st' b' Hwf _ => mbap_panic st b st' b' Hwf) mbap_args_stable mbap_tail ref_fuel mbap_ref_app mbap_tail_len r t n fi G F Hrep (all_true n).
+Definition mbap_represents_step r t n G r1 l1 Hrep := represents_step pstate PTcp mbap_parse Begin st_ok need cons_need ref ref_from
+  (fun _ => True) I (fun _ _ _ _ => I) (fun _ _ _ => I) (fun _ _ _ => I)
+  mbap_H_mk (fun _ => eq_refl) I (fun _ _ _ => eq_refl) ltac:(cbn; lia) mbap_need_cap stuck_eof
+  (fun st b st' b' Hwf _ => mbap_none st b st' b' Hwf) (fun st b st' b' f Hwf _ => mbap_some st b st' b' f Hwf)
+  (fun st b st' b' e Hwf _ => mbap_err' st b st' b' e Hwf) (fun st b st' b' Hwf _ => mbap_panic st b st' b' Hwf) mbap_args_stable mbap_tail ref_fuel mbap_ref_app mbap_tail_len r t n G r1 l1 Hrep (all_true n).
+Definition mbap_run_cancel_eq n st b fi G Hwf := run_cancel_eq pstate PTcp mbap_parse Begin st_ok need cons_need ref ref_from
+  (fun _ => True) I (fun _ _ _ _ => I) (fun _ _ _ => I) (fun _ _ _ => I)
+  mbap_H_mk (fun _ => eq_refl) I (fun _ _ _ => eq_refl) ltac:(cbn; lia) mbap_need_cap stuck_eof
+  (fun st b st' b' Hwf _ => mbap_none st b st' b' Hwf) (fun st b st' b' f Hwf _ => mbap_some st b st' b' f Hwf)
+  (fun st b st' b' e Hwf _ => mbap_err' st b st' b' e Hwf) (fun st b st' b' Hwf _ => mbap_panic st b st' b' Hwf) mbap_args_stable n st b fi G Hwf I (all_true n).
